@@ -24,6 +24,9 @@ func runC02(c *mon.Ctx) {
 		c.Cases(func(i int, r *mon.Rand) {
 			c02Stress(c, r)
 			c02PendingRace(c, r.Fork(77))
+			if c.Tier == "thorough" && c.Batch == 0 && i == 0 && !c.Race {
+				c02ManyUpdates(c)
+			}
 		})
 	default:
 		c.Cases(func(i int, r *mon.Rand) { c02Token(c, r) })
@@ -443,4 +446,26 @@ func c02PendingRace(c *mon.Ctx, r *mon.Rand) {
 	closer.Close()
 	c.Event("pending-update-trials", int64(trials))
 	c.Event("pending-update-trials-with-a-pass-between-or-during-the-two-updates", racing)
+}
+
+// c02ManyUpdates (thorough tier, once per run): one gauge is updated 2^31+5
+// times between two passes - more often than a 31-bit quantity counts; the
+// next pass delivers the last value.
+func c02ManyUpdates(c *mon.Ctx) {
+	rep := &lastGaugeRep{}
+	root, closer := vNewRoot(tally.ScopeOptions{Reporter: rep, OmitCardinalityMetrics: true}, 0, 1)
+	g := root.Gauge("g")
+	g.Update(-1)
+	tally.VerifReportPass(root)
+	const n = 1<<31 + 5
+	for k := 0; k < n; k++ {
+		g.Update(float64(k & 1023))
+	}
+	want := float64((n - 1) & 1023)
+	tally.VerifReportPass(root)
+	if got := math.Float64frombits(atomic.LoadUint64(&rep.last)); got != want {
+		c.Violation("stale-value", map[string]interface{}{"why": fmt.Sprintf("a gauge was updated %d times between two passes, last to %v; the pass delivered %v (or nothing new)", n, want, got)})
+	}
+	closer.Close()
+	c.Event("gauge-updates-between-two-passes", n)
 }
